@@ -336,6 +336,15 @@ func main() {
 		cases = append(corpusCases(), generate(a.Seed, a.Tier, a.Search)...)
 	}
 
+	if only := os.Getenv("C01_ONLY"); only != "" { // development aid: restrict to some protocols
+		var kept []kase
+		for _, k := range cases {
+			if strings.Contains(","+only+",", ","+k.Proto+",") {
+				kept = append(kept, k)
+			}
+		}
+		cases = kept
+	}
 	// run the implementation (parallel; every run is self-contained and deterministic)
 	outs := make([]*outcome, len(cases))
 	workers := runtime.NumCPU()
